@@ -103,6 +103,16 @@ def props_report(pid):
         raise ToolBroken("property file %s does not compile:\n%s" % (pid, out[-3000:]))
     return out
 
+def coqchk(pid):
+    """Independent re-check of the compiled property file and everything it depends on (thorough tier).
+    -> (ok, summary text)"""
+    rc, out = sh("timeout 3000 coqchk -o -silent -Q AV AV AV.Props.%s 2>&1" % pid, cwd=COQ)
+    summary = out[out.find("CONTEXT SUMMARY"):] if "CONTEXT SUMMARY" in out else out[-1500:]
+    flat = " ".join(summary.split())
+    ok = (rc == 0 and "Axioms: <none>" in flat and "type-in-type: <none>" in flat
+          and "unsafe (co)fixpoints: <none>" in flat and "positivity is assumed: <none>" in flat)
+    return ok, flat[:600]
+
 FORBIDDEN = ["Admitted", "admit.", "Axiom ", "Parameter ", "Conjecture ", "Unset Guard", "bypass_check",
              "type-in-type", "Admit Obligations", "impredicative-set"]
 def grep_forbidden():
